@@ -5,9 +5,9 @@ from ..translate import arith, cellctor
 SPEC = dict(
     manifest=dict(
         category='proof',
-        text='Lean proves for EVERY tree of ordinary cells (all bit lengths, ref counts, shapes; SHA-256 abstract) that the model of Cell.__init__ is constructible iff depth<=1023 and reports the textbook representation hash/depth at every level, that get_representation hashes to the cached hash, that ==/__hash__ coincide with hash equality, and that the standard representation is injective (c01_repr_injective: d1 d2 ++ padded data ++ child depths ++ child hashes determines the BIT STRING -- the completion-tag padding is invertible given d2, Proofs/Pad.lean -- the reference count and every child depth field and hash; c01_hash_binding: equal hashes without a collision on the two representations mean equal bits and child hashes). The model is tied to the code by differential correspondence through 12 construction routes. The integer arithmetic the model rests on (descriptors, level-mask functions, depth limit, pruned offsets) is additionally REGENERATED from the Python source on every run and proved equal to the model/spec for all inputs (c0x_src_* theorems).',
-        level_note='Trusted: Lean kernel (propext, Classical.choice, Quot.sound), Model/Cell.lean as a faithful hand transcription of cell.py/exotic.py (checked only by sampled correspondence: ~29k node observations per quick run incl. every bit-length class and depth 1022-1025 chains), bitarray/hashlib semantics, the Python harness.',
-        technique='Lean 4 refinement proof (hand model) + differential correspondence with the library + source-regenerated arithmetic lemmas',
+        text='Lean proves for EVERY tree of ordinary cells (all bit lengths, ref counts, shapes; SHA-256 abstract) that the model of Cell.__init__ is constructible iff depth<=1023 and reports the textbook representation hash/depth at every level, that get_representation hashes to the cached hash, that ==/__hash__ coincide with hash equality, and that the standard representation is injective (c01_repr_injective: d1 d2 ++ padded data ++ child depths ++ child hashes determines the BIT STRING -- the completion-tag padding is invertible given d2, Proofs/Pad.lean -- the reference count and every child depth field and hash; c01_hash_binding: equal hashes without a collision on the two representations mean equal bits and child hashes). The model is tied to the code by differential correspondence through 12 construction routes. The integer arithmetic the model rests on (descriptors, level-mask functions, depth limit, pruned offsets) is additionally REGENERATED from the Python source on every run and proved equal to the model/spec for all inputs (c0x_src_* theorems). The WHOLE constructor is regenerated as well: Cell.__init__ with resolve_mask, the calculate_hashes loop (hash-index bookkeeping, the three raise points, child depths and hashes fed to the hash object), get_descriptors, the completion-tag padding of get_data_bytes, get_hash/get_depth of the children and NullCell.__init__ are re-translated into Generated/CellCtor.lean on every run (harness/translate/pyobj.py + cellctor.py, validated against the running library on about 480 cells each time the source or translator changes), and Lean proves for ALL cell types, bit strings and child infos that the regenerated constructor equals the hand model Model.construct including Cell.hash, the descriptor bytes and the padded data (c01_src_constructor; Proofs/SrcCellCtor.lean), so c01_hash_depth / c01_constructible_iff hold for what the source computes (c01_src_hash_depth). A source change inside the translatable subset breaks this proof and the check then evaluates regenerated constructor vs model on boundary DAGs to hand the differing cells to the oracle; outside the subset the tie is reported lost and the sampled correspondence decides.',
+        level_note='Trusted: Lean kernel (propext, Classical.choice, Quot.sound), the source translators pyarith.py / pyobj.py with their declared interface (attribute types, a child cell = its CellInfo, sha256 streaming = hash of the concatenation, bitarray/int built-ins of PyObj.lean; differentially validated against CPython), Model/Cell.lean as a hand transcription of cell.py/exotic.py (for the constructor now proved equal to the regenerated source, c01_src_constructor; elsewhere checked by sampled correspondence: ~29k node observations per quick run incl. every bit-length class and depth 1022-1025 chains), bitarray/hashlib semantics, the Python harness.',
+        technique='Lean 4 refinement proof (hand model) + constructor regenerated from the source and proved equal to the model for all inputs + differential correspondence with the library',
     ),
     translators=[('cell.py d1/d2/depth-limit->Generated/CellArith.lean', arith.regenerator('CellArith')),
                  ('exotic.py LevelMask->Generated/LevelMask.lean', arith.regenerator('LevelMask')),
@@ -19,7 +19,8 @@ SPEC = dict(
     trusted_base=['Model/Cell.lean mirrors Cell.__init__/calculate_hashes/get_hash/get_depth/get_representation by hand',
                   'Spec/Cell.lean transcribes tvm.pdf 3.1.4-3.1.5', 'SHA-256 is an abstract parameter H in all theorems',
                   'lean/TonVerif/Sha256.lean (driver only) validated against hashlib on each run',
-                  'harness/translate/pyarith.py + arith.py (Python int arithmetic -> Lean) and lean/TonVerif/PyInt.lean (meaning of bit_length / bin().count / math.ceil) for the c01_src_* theorems'],
+                  'harness/translate/pyarith.py + arith.py (Python int arithmetic -> Lean) and lean/TonVerif/PyInt.lean (meaning of bit_length / bin().count / math.ceil) for the c01_src_* theorems',
+                  'harness/translate/pyobj.py + cellctor.py (object programs -> Lean: loops, early return, method calls, list/bitarray/hash-object mutation) with the declared interface in cellctor.py and lean/TonVerif/PyObj.lean, PyBytes.lean for c01_src_constructor (design/translators-cell.md)'],
     assumptions=['bitarray slicing/tobytes/fill behave as modelled', 'hashlib.sha256 is SHA-256',
                  'correspondence is sampled differential testing of model vs library'],
 )
